@@ -1,6 +1,12 @@
 /-
 C15 — String and class-usage cross-references are exact (both directions: every instruction appears,
 nothing else appears).  Model: AgVerif/Model/Xref.lean, specification: AgVerif/Spec/Xref.lean.
+Scope of the statements: the model identifies a Python object with the key the code registers it under
+(class name; (class, name, descriptor); string value).  On programs whose class names are distinct across
+the added DEX files (`AgVerif.C16.DistinctClassNames`; C16 proves that the keying is injective there) this
+mirrors the code.  For a program with a repeated class name the theorems below are statements about the
+key-merged model only (`AgVerif.C16.duplicate_class_is_merged`): the code keeps the ClassAnalysis of the DEX
+added last; that case is judged on the real code, on objects, by the duplicate-class stream of the harness.
 -/
 import AgVerif.Proof.XrefView
 
@@ -47,6 +53,24 @@ theorem used_class_registered (p : List Dex) (op : Nat) (m : MKey) (c : String) 
   refine ⟨fun hd => ?_, fun hd => ?_, nodup_class_keys p⟩
   · rw [dget_classes]; simp [hd]
   · rw [dget_classes]; simp [hd, this]
+
+/-- the string and class-usage tables are sets: no entry is recorded twice -/
+theorem tables_are_sets (p : List Dex) :
+    (analyse p).strFrom.Nodup ∧ (analyse p).newInstC.Nodup ∧ (analyse p).newInstM.Nodup ∧
+    (analyse p).constClsC.Nodup ∧ (analyse p).constClsM.Nodup := by
+  have h := addAll_xr_nil p
+  rw [analyse_eq]
+  refine ⟨?_, ?_, ?_, ?_, ?_⟩
+  · show ((progDelta (addAll p).decl p).strFrom.foldl sadd (addAll p).strFrom).Nodup
+    exact nodup_foldl_sadd _ _ (by rw [h.2.2.2.2.2.2.2.2.1]; exact List.nodup_nil)
+  · show ((progDelta (addAll p).decl p).newInstC.foldl sadd (addAll p).newInstC).Nodup
+    exact nodup_foldl_sadd _ _ (by rw [h.2.2.2.2.2.1]; exact List.nodup_nil)
+  · show ((progDelta (addAll p).decl p).newInstM.foldl sadd (addAll p).newInstM).Nodup
+    exact nodup_foldl_sadd _ _ (by rw [h.2.2.2.2.1]; exact List.nodup_nil)
+  · show ((progDelta (addAll p).decl p).constClsC.foldl sadd (addAll p).constClsC).Nodup
+    exact nodup_foldl_sadd _ _ (by rw [h.2.2.2.2.2.2.2.1]; exact List.nodup_nil)
+  · show ((progDelta (addAll p).decl p).constClsM.foldl sadd (addAll p).constClsM).Nodup
+    exact nodup_foldl_sadd _ _ (by rw [h.2.2.2.2.2.2.1]; exact List.nodup_nil)
 
 /-! non-vacuity -/
 def exProg : List Dex :=
